@@ -2,7 +2,7 @@
     and the model computes on them what the theorems say (evaluated by the kernel, vm_compute). *)
 From IsoTp Require Import Base.Prelude Model.Micro Spec.ConfigSpec Spec.Segment Spec.Stream
   Proofs.TxP Proofs.CoopP Proofs.FcPosP Proofs.RxP Proofs.OnceP Proofs.PacingP Proofs.JustifiedP Proofs.LimP Proofs.LazyRunP
-  Model.Joint Spec.AddrSpec Proofs.AddressP Proofs.WireP Proofs.JointP Proofs.JointProcP Proofs.LimWinP.
+  Model.Joint Spec.AddrSpec Proofs.AddressP Proofs.WireP Proofs.JointP Proofs.JointProcP Proofs.LimWinP Proofs.TokenP.
 
 Definition ex_params (bs : Z) : params :=
   {| p_stmin := 0; p_blocksize := bs; p_override_stmin_ns := None; p_tbs_ns := 1000000000; p_tcr_ns := 1000000000;
@@ -109,3 +109,10 @@ Proof.
   split; [unfold ex_lim_run; repeat (constructor; [cbn; try exact I; lia|]); constructor|].
   vm_compute. split; reflexivity.
 Qed.
+
+(** the extra hypotheses of C01_only_deadline_errors_schedule hold for this pair and the schedule above reports
+    neither a deadline error nor any other *)
+Example ex_no_deadline_error :
+  stmin_valid (p_stmin (c_p ex_ca)) = true /\ stmin_valid (p_stmin (c_p ex_cb)) = true /\
+  jto (snd (crun ex_ca ex_cb (init_net ex_ca ex_cb 0 0) ex_calls)) = false.
+Proof. vm_compute. repeat split; reflexivity. Qed.
